@@ -5,7 +5,7 @@ use crate::error::Result;
 use crate::parser::chunks;
 use crate::types::{Color, Vec3};
 use crate::version::{WmoFeature, WmoVersion};
-use crate::wmo_group_types::{TexCoord, WmoBatch, WmoBspNode, WmoGroup, WmoLiquid};
+use crate::wmo_group_types::{TexCoord, WmoBatch, WmoBspNode, WmoGroup, WmoGroupHeader, WmoLiquid};
 use crate::wmo_types::{
     WmoDoodadDef, WmoDoodadSet, WmoFlags, WmoGroupInfo, WmoLight, WmoMaterial, WmoPortal,
     WmoPortalReference, WmoRoot,
@@ -129,8 +129,11 @@ impl WmoWriter {
         };
         mogp_header.write(writer)?;
 
-        // Write group header fields
+        // Write group header fields (68 bytes, see WmoGroupHeader::SIZE)
+        // +0x00: groupName, +0x04: descriptiveGroupName (offsets into MOGN of the root file)
         writer.write_u32_le(group.header.name_offset)?;
+        writer.write_u32_le(0)?;
+        // +0x08: flags
         writer.write_u32_le(group.header.flags.bits())?;
 
         // Write bounding box
@@ -142,9 +145,14 @@ impl WmoWriter {
         writer.write_f32_le(group.header.bounding_box.max.y)?;
         writer.write_f32_le(group.header.bounding_box.max.z)?;
 
-        // Write flags and index
-        writer.write_u16_le(0)?; // Flags2, only used in later versions
-        writer.write_u16_le(group.header.group_index as u16)?;
+        // The group index is not stored in the file (it is part of the file name).
+        // WmoGroupHeader carries none of the remaining fields, so they are written as zero:
+        // +0x24: portalStart, portalCount (u16 each)
+        // +0x28: transBatchCount, intBatchCount, extBatchCount, padding (u16 each)
+        // +0x30: fogIds (u8[4])
+        // +0x34: groupLiquid, +0x38: uniqueID, +0x3C: flags2 (u32 each)
+        // +0x40: parentOrFirstChildSplitGroupIndex, nextSplitChildGroupIndex (i16 each)
+        writer.write_all(&[0u8; WmoGroupHeader::SIZE - 0x24])?;
 
         // Mark the start of subchunks
         let _subchunks_start = writer.stream_position()?;
